@@ -95,6 +95,8 @@ type lworld struct {
 	early    string // C07: a context was done before the final Stopped / unregistration
 	final    int    // number of final Stopped deliveries (an incarnation with no successor)
 	chain    int
+	active   int // invocations of Receive in progress (C02)
+	overlap  string
 }
 
 type lrcv struct {
@@ -124,6 +126,13 @@ func (w *lworld) watch(where string) {
 	}
 }
 
+func tail(l []string, n int) []string {
+	if len(l) <= n {
+		return l
+	}
+	return l[len(l)-n:]
+}
+
 func last(l []string) string {
 	if len(l) == 0 {
 		return "<nothing>"
@@ -138,6 +147,11 @@ func (r *lrcv) Receive(c *actor.Context) {
 	entry := fmt.Sprintf("%d:%s", r.inc, kind)
 	if s, ok := c.Message().(string); ok {
 		entry = fmt.Sprintf("%d:msg:%s", r.inc, s)
+	}
+	w.active++
+	defer func() { w.active-- }()
+	if w.active > 1 && w.overlap == "" {
+		w.overlap = fmt.Sprintf("Receive(%s) was entered while another invocation of Receive of the same actor had not returned; log=%v", entry, w.log)
 	}
 	w.watch("at the entry of Receive(" + entry + ")")
 	if kind == "Stopped" {
@@ -161,7 +175,7 @@ func (r *lrcv) Receive(c *actor.Context) {
 	w.watch("at the exit of Receive(" + entry + ")")
 }
 
-type lverdict struct{ c03, c04, c07, other string }
+type lverdict struct{ c01, c02, c03, c04, c07, other string }
 
 func runLife(c LCase) (v lverdict, trace []string, steps int) {
 	ch := chooserOf(c.Sched)
@@ -221,6 +235,44 @@ func runLifeWith(c LCase, ch vsched.Chooser) (v lverdict, trace []string, steps 
 	// ---- quiescence: every thread has finished
 	w.watch("at quiescence")
 	v.c07 = w.early
+	v.c02 = w.overlap
+	// ---- C01: what one sender thread (or the actor itself, for a chain) sent arrives in that order,
+	// nothing twice, nothing that was not sent
+	{
+		lastOp := map[int]int{}    // sender thread -> highest op index delivered so far
+		lastChain := map[int]int{} // chain op -> highest link delivered so far
+		once := map[string]bool{}
+		for _, e := range w.log {
+			i := strings.Index(e, ":msg:")
+			if i < 0 || v.c01 != "" {
+				continue
+			}
+			m := e[i+5:]
+			if once[m] {
+				v.c01 = fmt.Sprintf("message %q was handed to Receive twice; log=%v", m, w.log)
+				break
+			}
+			once[m] = true
+			var op, k int
+			if n, _ := fmt.Sscanf(m, "C%d.%d", &op, &k); n == 2 {
+				if prev, ok := lastChain[op]; ok && k != prev+1 {
+					v.c01 = fmt.Sprintf("chain message %q arrived after link %d (each link is sent by the actor itself from inside the previous one's Receive); log tail=%v", m, prev, tail(w.log, 8))
+				}
+				lastChain[op] = k
+				continue
+			}
+			var idx int
+			if n, _ := fmt.Sscanf(m[1:], "%d", &idx); n != 1 || idx < 0 || idx >= len(c.Ops) || m[:1] != c.Ops[idx] {
+				v.c01 = fmt.Sprintf("Receive got %q, which nobody sent; log=%v", m, w.log)
+				break
+			}
+			t := idx % c.Senders
+			if prev, ok := lastOp[t]; ok && idx < prev {
+				v.c01 = fmt.Sprintf("sender thread %d sent op %d before op %d, Receive saw them the other way round; log=%v", t, idx, prev, w.log)
+			}
+			lastOp[t] = idx
+		}
+	}
 	pills, crashes := 0, 0
 	for _, op := range c.Ops {
 		if op == "poison" || op == "stop" {
@@ -386,6 +438,14 @@ func TestLifecycleSchedules(t *testing.T) {
 	lifeLeg(t, "TestLifecycleSchedules", func(v lverdict) string { return v.c04 })
 }
 
+func TestDeliverySchedules(t *testing.T) {
+	lifeLeg(t, "TestDeliverySchedules", func(v lverdict) string { return v.c01 })
+}
+
+func TestSerialSchedules(t *testing.T) {
+	lifeLeg(t, "TestSerialSchedules", func(v lverdict) string { return v.c02 })
+}
+
 func TestQuiescenceSchedules(t *testing.T) {
 	lifeLeg(t, "TestQuiescenceSchedules", func(v lverdict) string { return v.c03 })
 }
@@ -410,6 +470,8 @@ func init() {
 	vh.RegisterReplay("TestStopSchedules", rep(func(v lverdict) string { return v.c07 }))
 	vh.RegisterReplay("TestLifecycleSchedules", rep(func(v lverdict) string { return v.c04 }))
 	vh.RegisterReplay("TestQuiescenceSchedules", rep(func(v lverdict) string { return v.c03 }))
+	vh.RegisterReplay("TestDeliverySchedules", rep(func(v lverdict) string { return v.c01 }))
+	vh.RegisterReplay("TestSerialSchedules", rep(func(v lverdict) string { return v.c02 }))
 }
 
 // ---- bounded exhaustive exploration at engine level ----------------------------------------
